@@ -40,6 +40,7 @@ type evType struct {
 	sub    func(bus *eventbus.EventBus, fn func(Ev), so ...eventbus.SubscribeOption)
 	subCtx func(bus *eventbus.EventBus, fn func(Ev), so ...eventbus.SubscribeOption)
 	pub    func(bus *eventbus.EventBus, e Ev)
+	pubAny func(bus *eventbus.EventBus, e Ev) // through the static type any
 }
 
 func mkType[T ~struct {
@@ -53,11 +54,21 @@ func mkType[T ~struct {
 		subCtx: func(bus *eventbus.EventBus, fn func(Ev), so ...eventbus.SubscribeOption) {
 			eventbus.SubscribeContext(bus, func(_ context.Context, e T) { fn(Ev(e)) }, so...)
 		},
-		pub: func(bus *eventbus.EventBus, e Ev) { eventbus.Publish(bus, T(e)) },
+		pub:    func(bus *eventbus.EventBus, e Ev) { eventbus.Publish(bus, T(e)) },
+		pubAny: func(bus *eventbus.EventBus, e Ev) { eventbus.Publish[any](bus, T(e)) },
 	}
 }
 
 var evTypes = []evType{mkType[Ev](), mkType[E0](), mkType[E1](), mkType[E2](), mkType[E3](), mkType[E4](), mkType[E5]()}
+
+// publish publishes e as the event type of nesting depth d.
+func (c *Case) publish(bus *eventbus.EventBus, d int, e Ev) {
+	if c.ViaAny {
+		c.typeAt(d).pubAny(bus, e)
+	} else {
+		c.typeAt(d).pub(bus, e)
+	}
+}
 
 // typeAt: the event type used for publishes at nesting depth d.
 func (c *Case) typeAt(d int) evType {
@@ -113,6 +124,8 @@ type Case struct {
 	// outstanding work has finished, the same number of events is published
 	// again and Shutdown is called a second time with a background context.
 	Retry bool `json:"retry,omitempty"`
+	// ViaAny: publishes go through the static type any (Publish[any]).
+	ViaAny bool `json:"via_any,omitempty"`
 }
 
 type closeStore struct {
@@ -233,7 +246,7 @@ func bubble(c *Case, o *vkit.Outcome) {
 		}
 		if e.Depth < c.MaxDepth && !h.Once {
 			for k := 0; k < h.Nest; k++ {
-				c.typeAt(e.Depth+1).pub(bus, Ev{ID: int(nextID.Add(1)), Depth: e.Depth + 1})
+				c.publish(bus, e.Depth+1, Ev{ID: int(nextID.Add(1)), Depth: e.Depth + 1})
 			}
 		}
 		completed.Add(1)
@@ -265,7 +278,7 @@ func bubble(c *Case, o *vkit.Outcome) {
 		}
 	}
 	for p := 0; p < c.Pubs; p++ {
-		c.typeAt(0).pub(bus, Ev{ID: p + 1})
+		c.publish(bus, 0, Ev{ID: p + 1})
 	}
 	exp := int32(m.expected)
 	openGate := func() { close(gate) }
@@ -440,7 +453,7 @@ func bubble(c *Case, o *vkit.Outcome) {
 			}
 			exp2 := exp + exp - int32(onces) // the Once handlers are gone, everything else runs again
 			for p := 0; p < c.Pubs; p++ {
-				c.typeAt(0).pub(bus, Ev{ID: 5000 + p})
+				c.publish(bus, 0, Ev{ID: 5000 + p})
 			}
 			err2 := bus.Shutdown(context.Background())
 			got := completed.Load()
